@@ -302,7 +302,7 @@ def layered(rng, count):
                 layers.append(cur)
             fin = blk.wire('fin', w)
             py4hw.And2(blk, 'fin', rng.choice(layers[1]), rng.choice(layers[-1]), fin)
-            blk.addOut('r', fin)
+            blk.addOut(rng.choice(['r', 'fin', 'u1']), fin)      # a port may be called like an instance
             used = {id(p.wire) for c in blk.children.values() for p in c.inPorts} | {id(fin)}
             for li, layer in enumerate(layers[1:]):
                 for j, wv in enumerate(layer):
